@@ -80,7 +80,18 @@ CgroupPath CgroupPath::getChild(const std::string& path) const {
 
 std::vector<CgroupPath> CgroupPath::resolveWildcard() const {
   std::vector<CgroupPath> ret;
-  auto glob = Fs::glob(absolutePath(), /* dir_only */ true);
+  // Only the relative path is a pattern. The cgroup fs root names a place and
+  // is meant literally: escape what glob(3) would interpret in it (a delegated
+  // subtree used as root can have systemd-escaped names, e.g. foo\x2dbar.scope)
+  std::string pattern;
+  for (char c : cgroup_fs_) {
+    if (c == '\\' || c == '*' || c == '?' || c == '[' || c == '{') {
+      pattern.push_back('\\');
+    }
+    pattern.push_back(c);
+  }
+  pattern.append(absolute_cache_, cgroup_fs_.size(), std::string::npos);
+  auto glob = Fs::glob(pattern, /* dir_only */ true);
   // TODO(dschatzberg): Report error
   if (!glob) {
     return ret;
